@@ -364,18 +364,33 @@ Qed.
 Lemma take_body_nil r : take_body r [] = ([], []).
 Proof. destruct r as [k|]; [|reflexivity]. unfold take_body. now rewrite firstn_nil, skipn_nil. Qed.
 
+(* the generated rewind decisions (translated from the sources) by body kind *)
+Lemma rewind_eq bd st : rewind bd st = rewind_closed bd st.
+Proof.
+  unfold rewind, rewind_closed, body_nil, body_nobody, getbody_nil, getbody_fails.
+  destruct (bk bd) as [| | | |k]; try reflexivity. destruct (s_calls st <? k)%nat; reflexivity.
+Qed.
+Lemma rt_rewind_eq bd st : rt_rewind bd st = rt_rewind_closed bd st.
+Proof.
+  unfold rt_rewind, rt_rewind_closed, rewind_closed, body_nil, body_nobody, getbody_nil, getbody_fails.
+  destruct (bk bd) as [| | | |k]; try reflexivity. destruct (s_calls st <? k)%nat; reflexivity.
+Qed.
+
 Lemma rt_rewind_ok bd st st2 : rt_rewind bd st = RwOk st2 -> rewind bd st = RwOk st2.
-Proof. unfold rt_rewind. destruct (bk bd); auto; discriminate. Qed.
+Proof. rewrite rt_rewind_eq, rewind_eq. unfold rt_rewind_closed. destruct (bk bd); auto; discriminate. Qed.
 
 Lemma rt_rewind_not_replayable bd :
   (forall st', rewind bd st' = RwNoGetBody \/ rewind bd st' = RwGetBodyErr) ->
   forall st', rt_rewind bd st' = RwNoGetBody \/ rt_rewind bd st' = RwGetBodyErr.
-Proof. intros H st'. unfold rt_rewind. destruct (bk bd); auto. Qed.
+Proof.
+  intros H st'. specialize (H st'). rewrite rewind_eq in H. rewrite rt_rewind_eq.
+  unfold rt_rewind_closed. destruct (bk bd); auto.
+Qed.
 
 Lemma rewind_fresh bd st st2 :
   wf_body bd -> (bk bd = KNone \/ bk bd = KNoBody -> s_rest st = []) -> rewind bd st = RwOk st2 -> s_rest st2 = bdata bd.
 Proof.
-  unfold rewind, wf_body. intros Hwf Hn. destruct (bk bd) as [| | | |k].
+  rewrite rewind_eq. unfold rewind_closed, wf_body. intros Hwf Hn. destruct (bk bd) as [| | | |k].
   - intro E. injection E as <-. rewrite Hn, Hwf; auto.
   - intro E. injection E as <-. rewrite Hn, Hwf; auto.
   - intro E. now injection E as <-.
@@ -449,7 +464,7 @@ Proof.
   - auto.
   - repeat split; auto. intro Hk.
     match goal with Hrw : rt_rewind _ _ = RwOk _ |- _ =>
-      apply rt_rewind_ok in Hrw; unfold rewind in Hrw;
+      apply rt_rewind_ok in Hrw; rewrite rewind_eq in Hrw; unfold rewind_closed in Hrw;
       destruct Hk as [Hk|Hk]; rewrite Hk in Hrw; injection Hrw as <- end; auto.
   - repeat split; auto.
     match goal with Hrw : rt_rewind _ _ = RwOk _ |- _ =>
@@ -491,7 +506,7 @@ Qed.
 
 Lemma oneshot_not_replayable bd : bk bd = KOneShot ->
   forall st', rewind bd st' = RwNoGetBody \/ rewind bd st' = RwGetBodyErr.
-Proof. intros H st'. left. unfold rewind. now rewrite H. Qed.
+Proof. intros H st'. left. rewrite rewind_eq. unfold rewind_closed. now rewrite H. Qed.
 
 (* ------------------------------------------------------------------ *)
 (* Cancellation                                                         *)
@@ -1266,7 +1281,7 @@ Lemma rt_rewind_replayable bd st :
   wf_body bd -> replayable bd -> s_rest st = [] \/ bk bd = KReplay ->
   exists st2, rt_rewind bd st = RwOk st2 /\ s_rest st2 = bdata bd.
 Proof.
-  intros Hwf [H|H] Hs; unfold rt_rewind, rewind; rewrite H.
+  intros Hwf [H|H] Hs; rewrite rt_rewind_eq; unfold rt_rewind_closed, rewind_closed; rewrite H.
   - eexists; split; reflexivity.
   - exists st. split; [reflexivity|]. destruct Hs as [Hs|Hs]; [|congruence].
     rewrite Hs. symmetry. apply Hwf. left. exact H.
